@@ -93,7 +93,8 @@ def call(ts, *extra):
     s = R.sched
     proc = s.cur().proc
     run = R.run
-    entry = dict(task=ts["id"], pid=proc.pid, t0=s.now, t1=None, ex=ts.get("ex"), exn=ts.get("exn"))
+    entry = dict(task=ts["id"], pid=proc.pid, t0=s.now, t1=None, ex=ts.get("ex"), exn=ts.get("exn"),
+                 s0=s.steps, s1=None)
     entry.update(observe(proc))
     if ts.get("probe_env"):
         entry["env_probe"] = {k: proc.env.get(k) for k in ts["probe_env"]}
@@ -109,6 +110,7 @@ def call(ts, *extra):
         run.active_bodies.pop(proc.pid, None)
         if proc.alive:
             entry["t1"] = s.now
+            entry["s1"] = s.steps
 
 
 def _body(ts, proc, s, entry):
